@@ -27,6 +27,72 @@ func c18(r *core.Report) {
 	c18Order(r)
 	c18CycleRec(r)
 	c18StringOption(r)
+	c18Embedded(r)
+}
+
+// c18Embedded: two loops that must see every element.
+func c18Embedded(r *core.Report) {
+	p := r.Prog
+	info := p.Pkg("openapi3gen").TypesInfo
+	r.RunRule("C18.embedded", "embedded structs are descended into whatever their name: in appendFields no `continue` that depends on the field being exported (IsExported, PkgPath, the case of the first rune) stands before the recursive call that collects the fields of an embedded struct — encoding/json promotes the exported fields of an embedded struct whose type name is unexported; and the loop of NewSchemaRefForValue that exports cycle components and then rewrites each reference (drops Value behind a component reference, or the stale Ref) has no `continue`: a reference that skips the rewrite keeps a bare type name as its $ref", 2, func() {
+		fd := p.DeclOf("openapi3gen", "appendFields")
+		self := token.NoPos
+		ast.Inspect(fd.Body, func(nd ast.Node) bool {
+			if c, ok := nd.(*ast.CallExpr); ok {
+				if f := core.CalleeOf(info, c); f != nil && f.Name() == "appendFields" && self == token.NoPos {
+					self = c.Pos()
+				}
+			}
+			return true
+		})
+		if self == token.NoPos {
+			core.Fail("appendFields does not call itself")
+		}
+		bad := ""
+		ast.Inspect(fd.Body, func(nd ast.Node) bool {
+			br, ok := nd.(*ast.BranchStmt)
+			if !ok || br.Tok != token.CONTINUE || br.Pos() > self {
+				return true
+			}
+			// the condition of the if statement the continue stands in
+			var inner *ast.IfStmt
+			for _, anc := range core.PathTo(fd.Body, br) {
+				if ifs, ok := anc.(*ast.IfStmt); ok {
+					inner = ifs
+				}
+			}
+			if inner != nil && bad == "" {
+				s := core.ExprStr(inner.Cond)
+				if strings.Contains(s, "IsExported") || strings.Contains(s, "PkgPath") || strings.Contains(s, "IsLower") || strings.Contains(s, "IsUpper") {
+					bad = fmt.Sprintf("`continue` at %s under `%s`", p.Pos(br.Pos()), s)
+				}
+			}
+			return true
+		})
+		r.Check(bad == "", "embedded:appendFields", p.Pos(fd.Pos()), "no exportedness test before the descent into embedded structs", "appendFields skips unexported fields before it looks whether the field is an embedded struct ("+bad+"): the exported fields of an embedded struct with an unexported type name, which encoding/json writes, are missing from the schema and from the resolution of shared JSON names")
+
+		nd := p.DeclOf("openapi3gen", "Generator.NewSchemaRefForValue")
+		var loop *ast.RangeStmt
+		ast.Inspect(nd.Body, func(m ast.Node) bool {
+			if rs, ok := m.(*ast.RangeStmt); ok && loop == nil {
+				if f := core.FieldSel(info, rs.X); f != nil && f.Name() == "SchemaRefs" {
+					loop = rs
+				}
+			}
+			return true
+		})
+		if loop == nil {
+			core.Fail("NewSchemaRefForValue: no loop over SchemaRefs")
+		}
+		skip := ""
+		ast.Inspect(loop.Body, func(m ast.Node) bool {
+			if br, ok := m.(*ast.BranchStmt); ok && (br.Tok == token.CONTINUE || br.Tok == token.BREAK) && skip == "" {
+				skip = p.Pos(br.Pos())
+			}
+			return true
+		})
+		r.Check(skip == "", "embedded:exportloop", p.Pos(loop.Pos()), "every reference reaches the rewrite at the end of the round", "the loop of NewSchemaRefForValue over the generated references leaves a round early ("+skip+"): the reference of that round keeps both its Value and a Ref that is a bare type name, which serialises as a $ref that resolves nowhere")
+	})
 }
 
 // kind ranges: what encoding/json can emit for a value of the kind (as numbers).
